@@ -54,7 +54,10 @@ Build(d) ==
               THEN <<Ins("fc", NoPar, <<1, 2, 3>>), Ins(act, par, <<5>>), Ins("ce", NoPar, <<6, 4>>)>>
               ELSE <<Ins("fc", NoPar, <<1, 2, 3>>), Ins(act, par, <<5>>), Ins("squeeze", [dim |-> 1], <<6>>), Ins(loss, NoPar, <<7, 4>>)>>
       root == Len(inputs) + Len(code)
-  IN MkCaseD("c11", loss \o "/" \o act, inputs, <<"small", "small", "small", IF loss = "mse" THEN "any" ELSE "targ01">>,
+      (* softmax models also start from weights near 250 on inputs of +-1: the logits of two samples of one mini-batch *)
+      (* are then hundreds apart, while every probability and the gradient stay ordinary numbers                     *)
+      far == act = "softmax"
+  IN MkCaseD("c11", loss \o "/" \o act, inputs, <<IF far THEN "small,w250" ELSE "small", "small", IF far THEN "small,pm1" ELSE "small", IF loss = "mse" THEN "any" ELSE "targ01">>,
              code, <<root>>, root, act \in {"relu", "leakyrelu"})
 
 Cases == [i \in DOMAIN Descs |-> Build(Descs[i])]
